@@ -157,6 +157,30 @@ def hir_inline(F, helpers):
     return count
 
 
+def hir_flatten(F):
+    """Source-level counterpart of Facts.transparent: `e.g.f` with `g` a regrouping field becomes `e.f`."""
+    if not getattr(F, "transparent", None):
+        return 0
+    tys = {}
+    for (xp, g) in F.transparent:
+        for f in F.adts[xp]["variants"][0]["fields"]:
+            if f["name"] == g:
+                tys.setdefault(g, set()).add(strip_generics(f.get("adt") or ""))
+    n = 0
+    for b in list(F.bodies.values()) + list(F.removed_helpers.values()):
+        if not b.hir:
+            continue
+        for x in _hir_nodes(b.hir["value"]):
+            if x.get("k") == "Field" and isinstance(x.get("e"), dict):
+                e = x["e"]
+                while isinstance(e, dict) and e.get("k") == "Field" and e.get("name") in tys and \
+                        strip_generics(str(e.get("ty") or "").replace("&mut ", "").replace("&", "").strip()) in tys[e["name"]]:
+                    e = e["e"]
+                    n += 1
+                x["e"] = e
+    return n
+
+
 def normalise(F):
     """Inline helpers outside the baseline decomposition into their callers (in place). Returns the list of inlined helper paths."""
     base = baseline()
@@ -173,6 +197,7 @@ def normalise(F):
     if not helpers:
         return []
     F.hir_inlined = hir_inline(F, helpers)
+    hir_flatten(F)
 
     def pred(cb, t):
         return cb.path in helpers
